@@ -265,7 +265,9 @@ pub async fn run_scenario(world: &mut World, req: &str, case: usize, out: &mut V
                     _ => nodes.push(addr_str(&p.addr)),
                 }
             }
-            if rng.chance(1, 8) { routers.push("!nowhere".into()) }
+            // an unresolvable router name; with no other contact at all the worker idles for
+            // NO_NETWORK_TIMEOUT and tries again (coverage: bootstrap.rs "no network" branch)
+            if rng.chance(1, 8) || (n == 0 && rng.chance(1, 2)) { routers.push("!nowhere".into()) }
             let me = rng.bytes(20);
             let a = real_addr(v6, 0);
             sim.reals.push((0, me.clone(), a));
